@@ -514,6 +514,15 @@ func corruptFile(t *simrt.Tape, meta string, forLibrary bool) ([]byte, string, [
 			}
 		}
 	}
+	if forLibrary && int(h)+4 <= len(data) {
+		// Random bytes can hit the limit word too: the same exclusion as in the
+		// targeted limit damage applies (a sparse file of many megabytes, whose
+		// bounded walks cannot be simulated within the step budget).
+		if lim := binary.LittleEndian.Uint32(data[h:]); int64(lim) > int64(len(data))+8*refformat.PageSize && lim < 0xffff0000 {
+			put32(h, d.Limit)
+			descs = append(descs, fmt.Sprintf("(limit %#x not kept)", lim))
+		}
+	}
 	var names []string
 	for _, p := range uniq {
 		names = append(names, p.Name)
